@@ -6,7 +6,7 @@ from mbv.verdict import Outcome
 
 def run(tier, seed):
     out = Outcome("C10")
-    starts = [l["name"] for l in E.PARAMS]
+    starts = [l["name"] for l in E.PARAMS if not l.get("grad_only")]  # (entries of the others overflow 32-bit rationals in products)
     depth = 2 if tier == "quick" else 3
     if tier == "thorough":
         # depth 3 on every class family representative, depth 2 on everything
